@@ -128,6 +128,7 @@ func runC17(c *Ctx) {
 			sb = sb[k:]
 		}
 		c.Describe("second writer on the same logger: %d lines in %d chunks", len(wantB), len(chunksB))
+		c.R.Probe("second writer on the same logger")
 	}
 
 	// ---- reference splitter, run over the same event list ----
